@@ -7,7 +7,8 @@ META = dict(
          "'create object with chosen or automatic uid/name and add it', add again, moveRemote, renameRemote, rehaRemote, removeRemote (on members and "
          "on look-alike objects that are not in the stack) and removeAllRemotes is explored breadth first with canonical-state dedupe up to the depth bound; "
          "after every operation the three indexes, every object's uid/name/ha and the accept/reject result are compared with a reference model "
-         "(one ordered member list, three key maps derived from it).",
+         "(one ordered member list, three key maps derived from it).  A second family starts from four members and explores remove / re-add / re-key "
+         "histories, so that iteration order after removals in the middle is judged with three and four remotes.",
     note="Only RemoteStack itself (KeepStack adds files; Udp/Tcp stacks inherit these methods unchanged). Rejection means ValueError, the exception every documented rejecting path raises; "
          "a no-op move/rename/reha to the current value is accepted either way. Depth bounded, not a fixpoint.",
 )
@@ -15,7 +16,10 @@ from mc import core
 
 QUICK = core.TIER != "thorough"
 MAX_DEPTH = 3 if QUICK else 4          # operations after the first creation
-NOBJ = 3
+NOBJ = 4                               # object pool; the general family creates at most 3 of them
+GEN_OBJ = 3
+PRELOAD = [("new", 0, 1, "a", "h1"), ("new", 1, 2, "b", "h2"), ("new", 2, 4, "c", "h3"), ("new", 3, 5, "d", "h4")]
+FOCUS_DEPTH = 3 if QUICK else 4        # operations after the four-member preload
 LOCAL = dict(uid=3, name="local", ha="hl")
 UIDS = [1, 2, 3, 4]
 NAMES = ["a", "b", "c", "local"]
@@ -194,6 +198,23 @@ def hist_str(h):
     return " ".join(op_str(o) for o in h)
 
 
+def focused_ops(run):
+    """Second family: four members are already in the stack; remove / re-add / re-key (to the local key, a free key,
+    an occupied key) each of them, so that removals in the middle followed by moves/renames/rehas are reached."""
+    ops = []
+    for i in range(NOBJ):
+        for u in (LOCAL["uid"], 6, 1):
+            ops.append(("move", i, u))
+        for n in (LOCAL["name"], "e", "a"):
+            ops.append(("rename", i, n))
+        for h in (LOCAL["ha"], "h5", "h1"):
+            ops.append(("reha", i, h))
+        ops.append(("remove", i))
+        ops.append(("add", i))
+    ops.append(("clear",))
+    return ops
+
+
 def enabled_ops(run):
     ops = []
     created = [i for i, o in enumerate(run.objs) if o is not None]
@@ -207,24 +228,30 @@ def enabled_ops(run):
         ops.append(("remove", i))
         ops.append(("add", i))
     nxt = len(created)
-    if nxt < NOBJ:
+    if nxt < GEN_OBJ:
         for (u, n, h) in creations():
             ops.append(("new", nxt, u, n, h))
     ops.append(("clear",))
     return ops
 
 
-def work(first):
+def work(arg):
+    family, first = arg
     core.use_repo()
     p = core.Part()
-    h0 = [("new", 0) + tuple(first)]
+    if family == "gen":
+        h0 = [("new", 0) + tuple(first)]
+        depth, opsfn = MAX_DEPTH, enabled_ops
+    else:
+        h0 = PRELOAD + [first]
+        depth, opsfn = FOCUS_DEPTH - 1, focused_ops
 
     def build(history):
         p.evaluations += 1
         return Run(history)
 
     def enabled(run, history):
-        return [] if run.diverged else enabled_ops(run)
+        return [] if run.diverged else opsfn(run)
 
     def check(run, history):
         p.traces += 1
@@ -243,7 +270,7 @@ def work(first):
         return False
 
     with core.watchdog(3000):
-        res = core.bfs(h0, enabled, build, lambda r: r.canon(), check=check, max_depth=MAX_DEPTH)
+        res = core.bfs(h0, enabled, build, lambda r: r.canon(), check=check, max_depth=depth)
     p.states = res["states"]
     p.transitions = res["transitions"]
     p.notes["depth_reached=%d" % res["max_depth"]] += 1
@@ -257,7 +284,8 @@ def run():
     gc.collect()
     gc.freeze()          # forked workers then do not copy the parent heap page by page
     ck = core.Check("C37", "model_checking", META["technique"])
-    parts = core.pmap(work, creations())
+    items = [("gen", c) for c in creations()] + [("focus", op) for op in focused_ops(None)]
+    parts = core.pmap(work, items)
     # keep, per violation group, the shortest history (ties: first shard) so the key is the minimal one
     best = {}
     for si, p in enumerate(parts):
@@ -268,7 +296,8 @@ def run():
         p.violations = []
     ck.merge(parts)
     ck.part.violations = [best[g][1] for g in sorted(best, key=lambda g: (best[g][0], g))]
-    ck.coverage_extra = dict(first_operations=len(parts), max_depth_after_first=MAX_DEPTH, objects=NOBJ,
+    ck.coverage_extra = dict(first_operations=len(creations()), max_depth_after_first=MAX_DEPTH, objects=GEN_OBJ,
+                             focused_family=dict(preload=[op_str(o) for o in PRELOAD], operations_after_preload=FOCUS_DEPTH, shards=len(focused_ops(None))),
                              universe=dict(uids=UIDS, names=NAMES, has=HAS, local=LOCAL))
     ck.assumptions = [
         "a rejected operation is one that raises ValueError (what every documented rejecting path of RemoteStack raises); any other exception is reported",
@@ -279,9 +308,11 @@ def run():
     return ck.finish(
         rule="BFS from each of %d first creations; operations: create next object (16 uid/name/ha choices incl. automatic uid/name and local-colliding keys) and add it, "
              "re-add, move to each uid, rename to each name, reha to each address, remove (each existing object, member or not), removeAllRemotes; "
-             "%d operations after the first; reference compared after every operation" % (len(parts), MAX_DEPTH),
+             "%d operations after the first; second family: from a stack preloaded with four members, every history of %d operations over "
+             "{move/rename/reha each member to the local, a free and an occupied key, remove, re-add, removeAll}; reference (one member order shared by "
+             "the three indexes, re-keyed remotes keep their position) compared after every operation" % (len(creations()), MAX_DEPTH, FOCUS_DEPTH),
         exhaustive=False,
-        explanation="complete for all histories of at most %d operations over the stated universe; not a fixpoint" % (MAX_DEPTH + 1))
+        explanation="complete for all histories of at most %d operations over the stated universe and of %d operations after the four-member preload; not a fixpoint" % (MAX_DEPTH + 1, FOCUS_DEPTH))
 
 
 if __name__ == "__main__":
